@@ -429,4 +429,35 @@ theorem tableSum_collapse {fb : FB} {r1 r2 : Array Nat} {interval nS maxprime si
     subst e
     rw [Nat.add_zero, hA 16 nS hnS, ibl_top hfb hmax hnS (by omega)]
 
+/-- the table term is bounded by the bit lengths of the distinct primes that contribute. -/
+theorem tabSum_le {fb : FB} {r1 r2 : Array Nat} {interval X nS : Nat} (hfb : fb.WF) (hr : RootsOK fb r1 r2)
+    (ps : Finset ℕ)
+    (hps : ∀ i p, nS ≤ i → fb.primes[i]? = some p → 0 < tabF fb r1 r2 interval X i → p ∈ ps) :
+    rangeSum (tabF fb r1 r2 interval X) nS (fb.primes.size - nS) ≤ ∑ p ∈ ps, bitlen p := by
+  unfold rangeSum
+  refine list_sum_le_finset (fun i => (fb.primes[i]?).getD 0) _ _ ps (List.nodup_range' (step := 1) (by omega)) ?_ ?_ ?_
+  · intro i hi
+    have hm := List.mem_range'_1.1 hi
+    obtain ⟨p, hp⟩ := hfb.prime_at (i := i) (by omega)
+    obtain ⟨o1, o2, h1, h2, _, _⟩ := hr _ _ hp
+    unfold tabF
+    simp only [hp, h1, h2, Option.getD_some]
+    split_ifs <;> omega
+  · intro i hi hg
+    have hm := List.mem_range'_1.1 hi
+    obtain ⟨p, hp⟩ := hfb.prime_at (i := i) (by omega)
+    simp only [hp, Option.getD_some]
+    exact hps i p (by omega) hp hg
+  · intro i hi j hj hij
+    have hmi := List.mem_range'_1.1 hi
+    have hmj := List.mem_range'_1.1 hj
+    obtain ⟨p, hp⟩ := hfb.prime_at (i := i) (by omega)
+    obtain ⟨q, hq⟩ := hfb.prime_at (i := j) (by omega)
+    simp only [hp, hq, Option.getD_some] at hij
+    subst hij
+    by_contra hne
+    rcases Nat.lt_or_gt_of_ne hne with h | h
+    · exact absurd (hfb.sorted i j p p h hp hq) (lt_irrefl _)
+    · exact absurd (hfb.sorted j i p p h hq hp) (lt_irrefl _)
+
 end Ymq.SieveLog
